@@ -9,10 +9,11 @@ import Econf.Lemmas.GrammarLemmas
   that, for **every** document of the grammar – any number of items, any lengths, any bytes the
   well-formedness predicates admit.
 
-  Delimiter class covered by the proof: "non-blank" (`CfgWF.nonblank`, e.g. `=`, `:`, `=:`), the
-  class of every configuration file format the library is used for; a last line without its line break
-  is covered by `C02_no_final_newline` (and, for any line at all, `parseLine_noeol`).  The blank and
-  mixed delimiter classes are decided by the correspondence check only (DESIGN.md 10.4).
+  Delimiter sets covered by the proof (`CfgWF`): every non-empty set without the line break and the
+  quote – no blank among the delimiters (`=`, `:`, `=:`), only blanks (` `, ` \t`), or mixed (` =`); the
+  three classes take different paths through `read_file` (`skipDelim_core`).  A last line without its
+  line break is covered by `C02_no_final_newline` (and, for any line at all, `parseLine_noeol`).  Not
+  covered by a theorem: the keys-only format (no delimiter at all).
 -/
 
 set_option linter.unusedSimpArgs false
@@ -392,7 +393,7 @@ def exDoc : List Item :=
   [ .comment [] 0x23 [0x20, 0x6c], .blank [0x20], .sect [] [0x53] [0x20] none, .entry exEntry1, .entry exEntry2 ]
 
 theorem exCfg_wf : CfgWF exCfg.eff := by
-  refine ⟨by decide, by decide, by decide, by decide, by decide, by decide, by decide, by decide, by decide⟩
+  refine ⟨by decide, by decide, by decide, by decide, by decide, by decide, by decide, by decide, by decide, by decide⟩
 
 theorem exDoc_wf : ∀ it ∈ exDoc, it.WF exCfg.eff := by
   intro it hit
@@ -401,13 +402,13 @@ theorem exDoc_wf : ∀ it ∈ exDoc, it.WF exCfg.eff := by
   · exact ⟨by decide, by decide, by decide⟩
   · show blanks _; decide
   · exact ⟨by decide, by decide, by decide, by decide, trivial⟩
-  · refine ⟨⟨by decide, by decide, by decide, by decide, by decide, by decide, by decide, by decide, by decide, by decide, ?_, ?_⟩, ?_⟩
+  · refine ⟨⟨by decide, by decide, by decide, by decide, by decide, by decide, by decide, by decide, by decide, by decide, ?_, ?_⟩, ?_, fun _ => by decide⟩
     · show texts _; decide
     · exact ⟨by decide, by decide, by decide, by decide⟩
     · intro l hl
       simp only [exEntry1, List.mem_singleton] at hl; subst hl
-      exact ⟨by decide, by decide, by decide, by decide, by decide, by decide⟩
-  · refine ⟨⟨by decide, by decide, by decide, by decide, by decide, by decide, by decide, by decide, by decide, by decide, ?_, trivial⟩, ?_⟩
+      exact ⟨by decide, by decide, by decide, by decide, by decide, by decide, by decide⟩
+  · refine ⟨⟨by decide, by decide, by decide, by decide, by decide, by decide, by decide, by decide, by decide, by decide, ?_, trivial⟩, ?_, fun _ => by decide⟩
     · exact ⟨by decide, by decide, by decide, by decide⟩
     · intro l hl; cases hl
 
@@ -423,5 +424,56 @@ example : parseBytes exCfg (render exDoc) = .ok (expDoc exDoc) :=
 example : ∃ st, parseBytes exCfg (render exDoc).dropLast = .ok st ∧ st.entries = (expDoc exDoc).entries ∧
     st.groups = (expDoc exDoc).groups ∧ st.curGroup = (expDoc exDoc).curGroup :=
   C02_no_final_newline exCfg exDoc exCfg_wf exDoc_wf rfl (by decide)
+
+/-! ### the other delimiter classes
+
+`key value` under the blank delimiter set `" \t"` (separator: a tab that is a delimiter, then blanks), and
+`a = 1` / `b 2` under the mixed set `" ="` (in that class any blank separates). -/
+
+def exCfgB : Cfg := { delim := [0x20, 0x09], comment := [0x23] }
+def exDocB : List Item :=
+  [ .entry { indent := [], key := [0x6b, 0x65, 0x79], ws1 := [], d := 0x09, ws2 := [0x20], value := .plain [0x76, 0x61, 0x6c], tws := [],
+             tc := some { c := 0x23, text := [0x63] }, cont := [] },
+    .entry { indent := [0x20], key := [0x71], ws1 := [0x0b], d := 0x20, ws2 := [], value := .quoted [0x61, 0x20, 0x62], tws := [0x20], tc := none, cont := [] } ]
+
+theorem exCfgB_wf : CfgWF exCfgB.eff :=
+  ⟨by decide, by decide, by decide, by decide, by decide, by decide, by decide, by decide, by decide, by decide⟩
+
+theorem exDocB_wf : ∀ it ∈ exDocB, it.WF exCfgB.eff := by
+  intro it hit
+  simp only [exDocB, List.mem_cons, List.not_mem_nil, or_false] at hit
+  rcases hit with rfl | rfl
+  · refine ⟨⟨by decide, by decide, by decide, by decide, by decide, by decide, by decide, by decide, by decide, by decide, ?_, ?_⟩, (by intro l hl; cases hl), fun _ => by decide⟩
+    · exact ⟨by decide, by decide, by decide, by decide⟩
+    · exact ⟨by decide, by decide, by decide, by decide⟩
+  · refine ⟨⟨by decide, by decide, by decide, by decide, by decide, by decide, by decide, by decide, by decide, by decide, ?_, trivial⟩, (by intro l hl; cases hl), fun _ => by decide⟩
+    show texts _; decide
+
+example : parseBytes exCfgB (render exDocB) = .ok (expDoc exDocB) :=
+  C02_parse_render_plain exCfgB exDocB exCfgB_wf exDocB_wf rfl
+
+example : (expDoc exDocB).entries.map (fun e => (e.key, e.value, e.quotes, e.ca)) =
+    [([0x6b, 0x65, 0x79], some [0x76, 0x61, 0x6c], false, some [0x63]), ([0x71], some [0x61, 0x20, 0x62], true, none)] := by decide
+
+def exCfgM : Cfg := { delim := [0x20, 0x3d], comment := [0x23] }
+def exDocM : List Item :=
+  [ .entry { indent := [], key := [0x61], ws1 := [0x20], d := 0x3d, ws2 := [0x20], value := .plain [0x31], tws := [], tc := none, cont := [] },
+    .entry { indent := [], key := [0x62], ws1 := [], d := 0x09, ws2 := [], value := .plain [0x32], tws := [], tc := none, cont := [] },
+    .entry { indent := [], key := [0x63], ws1 := [], d := 0x3d, ws2 := [], value := .plain [], tws := [], tc := none, cont := [] } ]
+
+theorem exCfgM_wf : CfgWF exCfgM.eff :=
+  ⟨by decide, by decide, by decide, by decide, by decide, by decide, by decide, by decide, by decide, by decide⟩
+
+theorem exDocM_wf : ∀ it ∈ exDocM, it.WF exCfgM.eff := by
+  intro it hit
+  simp only [exDocM, List.mem_cons, List.not_mem_nil, or_false] at hit
+  rcases hit with rfl | rfl | rfl <;>
+    exact ⟨⟨by decide, by decide, by decide, by decide, by decide, by decide, by decide, by decide, by decide, by decide,
+      ⟨by decide, by decide, by decide, by decide⟩, trivial⟩, (by intro l hl; cases hl), fun h => absurd rfl h⟩
+
+example : parseBytes exCfgM (render exDocM) = .ok (expDoc exDocM) :=
+  C02_parse_render_plain exCfgM exDocM exCfgM_wf exDocM_wf rfl
+
+example : (expDoc exDocM).entries.map (fun e => (e.key, e.value)) = [([0x61], some [0x31]), ([0x62], some [0x32]), ([0x63], none)] := by decide
 
 end Econf
